@@ -1,7 +1,7 @@
 #!/bin/bash
 # tools/confirm_seed.sh <ID> <mN> : independently confirm a seeded change in its scratch worktree:
 #  (a) demo passes on the unchanged tree, (b) with the change: builds, every pre-existing test passes, the demo fails.
-ID=$1; M=$2; W=/tmp/seed-$ID; O=/tmp/seed-$ID-out
+ID=$1; M=$2; W=/tmp/${SEEDP:-seed}-$ID; O=/tmp/${SEEDP:-seed}-$ID-out
 export CARGO_TARGET_DIR=$W/target CARGO_NET_OFFLINE=true
 cd $W || exit 2
 git checkout -q -- . && git clean -fdq -e target
